@@ -66,6 +66,46 @@ theorem imagepsf_sample_point (os origin x0 : Rat) (i : Int) (hos : os ≠ 0) :
   field_simp
   ring
 
+/-! ### the default origin centres the array on (x_0, y_0), for odd and even sample counts -/
+
+/-- TABLE OBLIGATION (constants regenerated from `GriddedPSFModel.origin` and the `ImagePSF.origin` setter): the default origin is
+    `(n - 1) / 2` for both models (seed C13-r8 wrote `n // 2`, which is half a sample off for an even n) -/
+theorem default_origin_constants :
+    Gen.PsfOrigin.griddedSub = 1 ∧ Gen.PsfOrigin.griddedDen = 2 ∧ Gen.PsfOrigin.imageSub = 1 ∧ Gen.PsfOrigin.imageDen = 2 := by decide
+
+theorem griddedOrigin_eq (n : Nat) : griddedOrigin n = ((n : Rat) - 1) / 2 := by
+  simp [griddedOrigin, defaultOrigin, Gen.PsfOrigin.griddedSub, Gen.PsfOrigin.griddedDen]
+
+theorem imageOrigin_eq (n : Nat) : imageOrigin n = ((n : Rat) - 1) / 2 := by
+  simp [imageOrigin, defaultOrigin, Gen.PsfOrigin.imageSub, Gen.PsfOrigin.imageDen]
+
+/-- with the default origin the samples sit symmetrically about x_0: sample i and sample n-1-i are at opposite offsets, for every n
+    (odd or even) and every oversampling -/
+theorem default_origin_symmetric (os : Rat) (n i : Nat) (hi : i < n) :
+    sampleOffset os (griddedOrigin n) (n - 1 - i) = - sampleOffset os (griddedOrigin n) i := by
+  rw [griddedOrigin_eq]
+  unfold sampleOffset
+  have h : ((n - 1 - i : Nat) : Rat) = (n : Rat) - 1 - i := by
+    have : i ≤ n - 1 := by omega
+    rw [Nat.sub_sub, Nat.cast_sub (by omega)]; push_cast; ring
+  rw [h]; ring
+
+/-- for an odd number of samples the middle sample is exactly at x_0 -/
+theorem default_origin_centre_sample (os : Rat) (k : Nat) : sampleOffset os (griddedOrigin (2 * k + 1)) k = 0 := by
+  rw [griddedOrigin_eq]; unfold sampleOffset; push_cast; ring
+
+/-- the sample offsets and the array-coordinate transform of `evaluate` are inverse to each other: at x_0 + offset(i) the array
+    coordinate is i (so the model returns flux x the stored sample there) -/
+theorem default_origin_round_trip (os x0 : Rat) (n i : Nat) (hos : os ≠ 0) :
+    arrayCoord os (griddedOrigin n) (x0 + sampleOffset os (griddedOrigin n) i) x0 = i := by
+  unfold arrayCoord sampleOffset
+  field_simp
+  ring
+
+-- non-vacuity: 8 samples → origin 7/2 (not 4); samples 0 and 7 at offsets ∓ 7/2
+example : griddedOrigin 8 = 7 / 2 ∧ sampleOffset 1 (griddedOrigin 8) 0 = -(7 / 2) ∧ sampleOffset 1 (griddedOrigin 8) 7 = 7 / 2 := by
+  refine ⟨?_, ?_, ?_⟩ <;> simp [griddedOrigin_eq, sampleOffset] <;> norm_num
+
 /-- interior sample points are valid (not replaced by fill_value); points beyond the array are invalid -/
 theorem sample_valid_iff (n : Nat) (i : Int) : isInvalid n (i : Rat) = false ↔ (0 ≤ i ∧ i ≤ (n : Int) - 1) := by
   unfold isInvalid
